@@ -305,8 +305,12 @@ impl<Notif> Subscription<Notif> {
 			SubscriptionKind::Method(notif) => FrontToBack::UnregisterNotification(notif),
 			SubscriptionKind::Subscription(sub_id) => FrontToBack::SubscriptionClosed(sub_id),
 		};
-		// If this fails the connection was already closed i.e, already "unsubscribed".
-		let _ = self.to_back.send(msg).await;
+		// The background task has already removed a subscription whose channel is closed; the server
+		// may have handed out its ID to a newer subscription that must not be closed on its behalf.
+		if !(matches!(msg, FrontToBack::SubscriptionClosed(_)) && self.rx.inner.is_closed()) {
+			// If this fails the connection was already closed i.e, already "unsubscribed".
+			let _ = self.to_back.send(msg).await;
+		}
 
 		// wait until notif channel is closed then the subscription was closed.
 		while self.rx.next().await.is_some() {}
@@ -448,6 +452,9 @@ impl<Notif> Drop for Subscription<Notif> {
 
 		let msg = match self.kind.take() {
 			Some(SubscriptionKind::Method(notif)) => FrontToBack::UnregisterNotification(notif),
+			// The background task has already removed a subscription whose channel is closed; the server
+			// may have handed out its ID to a newer subscription that must not be closed on its behalf.
+			Some(SubscriptionKind::Subscription(_)) if self.rx.inner.is_closed() => return,
 			Some(SubscriptionKind::Subscription(sub_id)) => FrontToBack::SubscriptionClosed(sub_id),
 			None => return,
 		};
